@@ -77,17 +77,43 @@ def check(model, o, feeds_list, overridable):
                         if isinstance(x, int) and x != y:
                             verdicts.append((f"signature:{what}-dim:{o['api']}", f"{n}: {d} -> {d2}"))
                             break
-                        if isinstance(x, str) and not (y == x):
+                        if isinstance(x, str) and not (y == x) and what == "inputs":
+                            # inputs are the caller's contract; output dims are derived and may be refined (symbolic -> known)
                             verdicts.append((f"signature:{what}-symdim:{o['api']}", f"{n}: {d} -> {d2}"))
                             break
     # overridable initializer-inputs are never folded: run with overrides
     if overridable and not probs:
         src = compare.Source(model)
-        v, d = compare.decide(src, new, feeds_list)
+        feeds_list = [f for f in feeds_list if _respects_declared_shapes(src, model, f)]
+        info["override_feeds_used"] = len(feeds_list)
+        v, d = compare.decide(src, new, feeds_list) if feeds_list else ("skip_source_fails", "no override tuple respects the declared shapes")
         info["override_verdict"] = v
         if v.startswith("violation"):
             verdicts.append((f"override:{v}:{o['api']}", d))
     return verdicts, info
+
+
+def _respects_declared_shapes(src, model, feeds):
+    """An override value (e.g. of an axes or shape operand) may make the model produce shapes that contradict the static shapes the
+    model itself declares for its outputs / value_info.  Such a tuple is outside the model's contract: the optimizer may rely on
+    declared shapes."""
+    a, b, _ = src.run(feeds)
+    declared = {}
+    for vi in list(model.graph.output) + list(model.graph.value_info):
+        if vi.type.HasField("tensor_type") and vi.type.tensor_type.HasField("shape"):
+            declared[vi.name] = [d.dim_value if d.HasField("dim_value") else None for d in vi.type.tensor_type.shape.dim]
+    got = {}
+    if src.last_intermediates:
+        got = {k: v for k, v in src.last_intermediates.items() if hasattr(v, "shape")}
+    elif a[0] == "ok":
+        got = {o.name: v for o, v in zip(model.graph.output, a[1]) if hasattr(v, "shape")}
+    for name, dims in declared.items():
+        v = got.get(name)
+        if v is None:
+            continue
+        if len(v.shape) != len(dims) or any(d is not None and d != s for d, s in zip(dims, v.shape)):
+            return False
+    return True
 
 
 def override_feeds(gm, seeds):
